@@ -106,6 +106,14 @@ def _run_map(ctx, spec, rng):
         if j_lib is FAILED:
             continue
         ctx.check("O2:kraus_to_choi", None, dev=_rel(j_lib, j_ref), tol=1e-9, sig=sig, nt=nt, mech="kraus_to_choi:definition", detail={"form": name, "din": din, "dout": dout, "r": r, "cls": cls})
+        j_first = ctx.call(kraus_to_choi, f, 1)  # sys = 1: the map applied to the FIRST half of the maximally entangled operator
+        if j_first is not FAILED:
+            units = [np.zeros((din, din)) for _ in range(din * din)]
+            for t_, e_ in enumerate(units):
+                e_[t_ // din, t_ % din] = 1
+            j_first_ref = sum(np.kron(ref.apply_kraus(e_, a_ops, b_ops), e_) for e_ in units)
+            ctx.check("O2:kraus_to_choi", None, dev=_rel(j_first, j_first_ref), tol=1e-9, sig=sig + ("sys=1",), nt=nt, mech="kraus_to_choi:definition[sys=1]",
+                      detail={"form": name, "din": din, "dout": dout, "r": r, "cls": cls})
     # Choi matrix (model-built) as the representation
     y = ctx.call(apply_channel, x, j_ref.copy())
     if y is not FAILED:
